@@ -46,20 +46,22 @@ fn idem_values(faults: &[(usize, Fault)], thorough: bool) -> Vec<bool> {
     if faults.iter().any(|(_, f)| matches!(f, Fault::Overloaded | Fault::Reset)) || thorough { vec![false, true] } else { vec![false] }
 }
 
-fn gen_fault(nmax: usize, thorough: bool) -> Vec<Case> {
+fn gen_fault(nmax1: usize, nmax2: Option<usize>) -> Vec<Case> {
     let mut v = Vec::new();
     let mut i = 0usize;
-    for n in 0..=nmax {
+    for n in 0..=nmax1.max(nmax2.unwrap_or(0)) {
         for s in pg::splits(n) {
             let pages = s.len();
-            // one fault
             let mut lists: Vec<Vec<(usize, Fault)>> = Vec::new();
-            for p in 0..pages {
-                for f in Fault::ALL {
-                    lists.push(vec![(p, f)]);
+            if n <= nmax1 {
+                for p in 0..pages {
+                    for f in Fault::ALL {
+                        lists.push(vec![(p, f)]);
+                    }
                 }
             }
-            if thorough {
+            if nmax2.map(|m| n <= m).unwrap_or(false) {
+                // every ordered pair of faults: on the same page (second one hits the retry) or on two pages
                 for p in 0..pages {
                     for q in p..pages {
                         for f in Fault::ALL {
@@ -110,7 +112,7 @@ fn consumers_for(split: &[usize]) -> Vec<Consumer> {
     v
 }
 
-fn gen_consumer(nmax: usize, nmax_fault: usize, thorough: bool) -> Vec<Case> {
+fn gen_consumer(nmax: usize, nmax_fault: Option<usize>, with_reset: bool) -> Vec<Case> {
     let mut v = Vec::new();
     let mut i = 0usize;
     for n in 0..=nmax {
@@ -127,7 +129,7 @@ fn gen_consumer(nmax: usize, nmax_fault: usize, thorough: bool) -> Vec<Case> {
             }
         }
     }
-    if thorough {
+    if let Some(nmax_fault) = nmax_fault {
         for n in 0..=nmax_fault {
             for s in pg::splits(n) {
                 if s.len() < 2 {
@@ -136,6 +138,9 @@ fn gen_consumer(nmax: usize, nmax_fault: usize, thorough: bool) -> Vec<Case> {
                 for cons in consumers_for(&s) {
                     for p in 0..s.len() {
                         for f in Fault::ALL {
+                            if f == Fault::Reset && !with_reset {
+                                continue;
+                            }
                             for idem in idem_values(&[(p, f)], false) {
                                 let mode = Mode::ALL[i % 2];
                                 let ps = PS4[(i / 2) % 4];
@@ -191,21 +196,28 @@ fn main() {
     let nmax_arg: Option<usize> = r.args.extra_value("--nmax").and_then(|s| s.parse().ok());
     let (cases, bound_note) = match leg.as_str() {
         "split" => {
-            let nmax = nmax_arg.unwrap_or(5);
+            let nmax = nmax_arg.unwrap_or(if thorough { 6 } else { 5 });
             (gen_split(nmax, thorough), json!({"rows_max": nmax, "faults_per_run": 0}))
         }
         "fault" => {
-            let nmax = nmax_arg.unwrap_or(if thorough { 3 } else { 3 });
-            (gen_fault(nmax, thorough), json!({"rows_max": nmax, "faults_per_run": if thorough { 2 } else { 1 }}))
+            let nmax = nmax_arg.unwrap_or(if thorough { 4 } else { 3 });
+            let nmax2: Option<usize> = if thorough { Some(r.args.extra_value("--nmax2").and_then(|s| s.parse().ok()).unwrap_or(3)) } else { None };
+            (gen_fault(nmax, nmax2), json!({"rows_max_one_fault": nmax, "rows_max_two_faults": nmax2, "faults_per_run": if thorough { 2 } else { 1 }}))
         }
         "consumer" => {
-            let nmax = nmax_arg.unwrap_or(if thorough { 4 } else { 3 });
-            let nf = if thorough { 3 } else { 0 };
-            (gen_consumer(nmax, nf, thorough), json!({"rows_max": nmax, "rows_max_with_fault": nf, "faults_per_run": if thorough { 1 } else { 0 }}))
+            let nmax = nmax_arg.unwrap_or(if thorough { 5 } else { 4 });
+            let nf = r.args.extra_value("--nmax2").and_then(|s| s.parse().ok()).unwrap_or(if thorough { 3 } else { 2 });
+            (gen_consumer(nmax, Some(nf), thorough), json!({"rows_max": nmax, "rows_max_with_fault": nf, "faults_per_run": 1, "reset_fault_combined_with_consumers": thorough}))
         }
         other => vcore::machinery_error(&format!("unknown --leg {other}")),
     };
     let mut cases = cases;
+    // cases with a connection reset need a world of their own: run them after the others (stable: simplest first within each group)
+    cases.sort_by_key(|c| c.has_reset());
+    if r.args.has_flag("--count") {
+        println!("{} cases", cases.len());
+        std::process::exit(0);
+    }
     let mut full = true;
     if let Some(limit) = r.args.extra_value("--limit").and_then(|s| s.parse::<usize>().ok()) {
         full = limit >= cases.len();
